@@ -37,6 +37,8 @@ type Op17 struct {
 	// BadType: the kernel's answer to this NoWait request carries its sequence number but is not an NLMSG_ERROR
 	// (type given here): the wait reports an error, and the answer is consumed all the same — once
 	BadType int `json:"bad_type,omitempty"`
+	// SendFail: the socket refuses this NoWait request (errno): nothing went out, nothing is pending
+	SendFail int `json:"send_fail,omitempty"`
 }
 
 type C17Case struct {
@@ -57,7 +59,7 @@ type C17Case struct {
 func (c C17Case) Describe() string {
 	var b strings.Builder
 	for i, o := range c.Ops {
-		fmt.Fprintf(&b, " %d %s u32=%d ack-errno=%d rules=%x noise=%d eintr=%d hard=%d answer-type=%d\n", i, o.K, o.U32, o.Errno, o.Rules, o.Noise, o.Eintr, o.Hard, o.BadType)
+		fmt.Fprintf(&b, " %d %s u32=%d ack-errno=%d rules=%x noise=%d eintr=%d hard=%d answer-type=%d send-refused=%d\n", i, o.K, o.U32, o.Errno, o.Rules, o.Noise, o.Eintr, o.Hard, o.BadType, o.SendFail)
 	}
 	fmt.Fprintf(&b, " (closing the socket returns errno %d)", c.CloseErrno)
 	fmt.Fprintf(&b, " then Close x %d (sends during Close fail with errno %d), then WaitForPendingACKs x %d (reads on the closed socket fail: %v), then %v\n", c.Closes, c.CloseSendErrno, c.AfterClose, c.ClosedReads, c.Tail)
@@ -80,7 +82,9 @@ func genC17(t *rapid.T) C17Case {
 		}
 		o.Noise = rapid.SampledFrom([]int{0, 0, 0, 1, 2, 10, 9, 11, 25}).Draw(t, "noise")
 		o.Eintr = rapid.SampledFrom([]int{0, 0, 0, 1, 3, 9}).Draw(t, "eintr")
-		if o.K == "nowait" && rapid.IntRange(0, 9).Draw(t, "badtype") == 0 {
+		if o.K == "nowait" && rapid.IntRange(0, 9).Draw(t, "sendfail") == 0 {
+			o.SendFail = rapid.SampledFrom([]int{int(syscall.ENOBUFS), int(syscall.EPERM), int(syscall.ECONNREFUSED), int(syscall.EAGAIN)}).Draw(t, "sendfailerrno")
+		} else if o.K == "nowait" && rapid.IntRange(0, 9).Draw(t, "badtype") == 0 {
 			o.BadType = rapid.SampledFrom([]int{1001, 1000, 3, 1300}).Draw(t, "badtypeval")
 		} else if o.K == "nowait" && rapid.IntRange(0, 7).Draw(t, "hard") == 0 {
 			o.Hard = rapid.SampledFrom([]int{int(syscall.ENOBUFS), int(syscall.EBADF), int(syscall.ENOTCONN)}).Draw(t, "harderrno")
@@ -234,6 +238,19 @@ func propC17(c C17Case) error {
 			k.Queue = nil
 			before := k.Recvs
 			var err error
+			if o.SendFail != 0 {
+				k.SendErr = syscall.Errno(o.SendFail)
+				err = cl.SetRateLimit(o.U32, libaudit.NoWait)
+				k.SendErr = nil
+				if err == nil {
+					return fmt.Errorf("%s: the socket refused the request (errno %d) but the call returned nil", what, o.SendFail)
+				}
+				if k.Recvs != before {
+					return fmt.Errorf("%s: a NoWait request performed %d receives", what, k.Recvs-before)
+				}
+				hC17.Class("nowait-request-refused-by-the-socket")
+				continue // nothing went out: no acknowledgement will come, none may be waited for
+			}
 			if o.K == "setpid" {
 				err = cl.SetPID(libaudit.NoWait)
 				usedPID = true
